@@ -49,6 +49,8 @@ pub struct SvcShared {
     pub clones_live: AtomicI64,
     pub clones_created: AtomicU64,
     pub clones_dropped: AtomicU64,
+    /// live service clones per node
+    pub live_by_node: Mutex<HashMap<usize, i64>>,
     pub inflight: Mutex<HashMap<usize, i64>>,
     pub max_inflight: Mutex<HashMap<usize, i64>>,
     t0: Mutex<Option<Instant>>,
@@ -82,6 +84,9 @@ impl SvcShared {
                 Some(rx)
             }
         }
+    }
+    pub fn live_clones(&self, node: usize) -> i64 {
+        *self.live_by_node.lock().unwrap().get(&node).unwrap_or(&0)
     }
     pub fn started(&self, id: &str) -> usize {
         self.events
@@ -122,6 +127,7 @@ pub struct HarnessSvc {
 
 impl Clone for HarnessSvc {
     fn clone(&self) -> Self {
+        *self.shared.live_by_node.lock().unwrap().entry(self.node).or_default() += 1;
         self.shared.clones_live.fetch_add(1, Ordering::SeqCst);
         self.shared.clones_created.fetch_add(1, Ordering::SeqCst);
         HarnessSvc {
@@ -133,6 +139,7 @@ impl Clone for HarnessSvc {
 
 impl Drop for HarnessSvc {
     fn drop(&mut self) {
+        *self.shared.live_by_node.lock().unwrap().entry(self.node).or_default() -= 1;
         self.shared.clones_live.fetch_sub(1, Ordering::SeqCst);
         self.shared.clones_dropped.fetch_add(1, Ordering::SeqCst);
     }
@@ -140,6 +147,7 @@ impl Drop for HarnessSvc {
 
 impl HarnessSvc {
     pub fn new(node: usize, shared: Arc<SvcShared>) -> Self {
+        *shared.live_by_node.lock().unwrap().entry(node).or_default() += 1;
         shared.clones_live.fetch_add(1, Ordering::SeqCst);
         shared.clones_created.fetch_add(1, Ordering::SeqCst);
         HarnessSvc { node, shared }
@@ -344,6 +352,10 @@ pub struct Sim {
     /// peer id -> label used in observation logs ("n0", "n1", ...)
     pub labels: Mutex<HashMap<PeerId, String>>,
     pub taps: Arc<Mutex<Vec<(usize, anemo::verif::TapEvent)>>>,
+    /// values that must outlive the runtime (handles kept alive across runtime teardown)
+    pub keep: Mutex<Vec<Box<dyn std::any::Any + Send>>>,
+    /// closures run after the runtime has been dropped; they return (key, message) violations
+    pub post: Mutex<Vec<Box<dyn FnOnce() -> Vec<(String, String)> + Send>>>,
 }
 
 impl Sim {
@@ -362,6 +374,8 @@ impl Sim {
             t0,
             labels: Mutex::new(HashMap::new()),
             taps: Arc::new(Mutex::new(vec![])),
+            keep: Mutex::new(vec![]),
+            post: Mutex::new(vec![]),
         })
     }
 
